@@ -51,7 +51,7 @@ THEOREM_CLASSES = {
 }
 UNPROVED = [
     "wrongly typed arguments (argument convertibility): rule table rows only (tests)",
-    "assignment to a constant through a function DEFINITION (`function fp() ... end` over a <const> function-pointer variable / field of a <const> record) is outside the mini-AST: rule table rows only; open finding with a proposed repair",
+    "assignment to a constant through a function DEFINITION: `function v() ... end` over a <const>/<comptime> function-pointer VARIABLE is in the model (FuncAssign, covered by C05_names_sound / C05_analyzer_sound_partial); over a FIELD of a <const> record (`function r.cb() ... end`) it is a rule table row only (the mini-AST has no records)",
     "arithmetic on pointers or incompatible types: rule table rows only (tests); the mini-AST has no typed expressions",
     "constants that do not fit: integer -> integer constants over the scraped IntegralType table only; float and enum constants are not covered",
     "constant index on an array of length 0 (`[0]T`): the rule follows the compiler's convention and accepts every non-negative index",
@@ -105,6 +105,7 @@ def gen(ctx):
     goto_chk = bool(re.search(r"for scope in context\.scope:iterate_up_scopes\(\) do\s+if scope\.is_deferblock and scope ~= labelscope then[^\n]*\n\s+node:raisef\(\"`goto` statement cannot jump out of a `defer` block\"\)\s+end\s+if scope\.has_defer then", mg.group(1)))
     mcall = re.search(r"\n( +)funcargtype = wantedtype\n\s*\n\s*-- check again the new type\n( +)wantedtype, err = funcargtype:get_convertible_from_attr\(argattr, false, true, argattrs\)\n +if not wantedtype then\n +node:raisef", an)
     call_rechecks = bool(mcall) and mcall.group(1) == mcall.group(2)
+    funcdef_chk = bool(re.search(r"local varsym = visitor_FuncDef_variable\(context, declscope, varnode\)\n  if not declscope and \(varnode\.attr\.const or varnode\.attr\.comptime\) and\n\s+not \(varsym and \(varsym\.forwarddecl or varsym\.funcdeclared\)\) then\n(?:\s*--[^\n]*\n)*\s+varnode:raisef\(\"cannot assign a constant variable\"\)", an))
     td = vlib.repo_read("lualib/nelua/typedefs.lua")
     types = []
     for mm in re.finditer(r"primtypes\.(u?int\d+)\s*=\s*types\.IntegralType\('(\w+)',\s*(\d+)(?:,\s*(true|false))?", td):
@@ -124,9 +125,10 @@ def gen(ctx):
            "Definition gen_upvalue_check_covers_forced_symbols : bool := %s.\n" % ("true" if forced_checked else "false") +
            "Definition gen_goto_checks_defer_block : bool := %s.\n" % ("true" if goto_chk else "false") +
            "Definition gen_call_rechecks_suggested_type : bool := %s.\n" % ("true" if call_rechecks else "false") +
+           "Definition gen_funcdef_checks_const : bool := %s.\n" % ("true" if funcdef_chk else "false") +
            "Definition gen_int_types : list (Z * bool) := [%s].\n" % "; ".join("(%d, %s)" % (b, "true" if s else "false") for _, b, s in types))
     vlib.write_if_changed(os.path.join(vlib.coq_dir(ID), "Gen.v"), txt)
-    return {"call_rechecks_suggested_type": call_rechecks, "goto_checks_defer_block": goto_chk, "upvalue_check_covers_forced_symbols": forced_checked, "break_continue_check_defer_block": jump, "switchcase_index_expr": idx_expr, "case_loop_var": m1.group(1), "int_types": types}
+    return {"funcdef_checks_const": funcdef_chk, "call_rechecks_suggested_type": call_rechecks, "goto_checks_defer_block": goto_chk, "upvalue_check_covers_forced_symbols": forced_checked, "break_continue_check_defer_block": jump, "switchcase_index_expr": idx_expr, "case_loop_var": m1.group(1), "int_types": types}
 
 
 # programs on which the unchanged analyzer violates the FULL-strength rule (rule_ok_full), replayed in every run
@@ -185,6 +187,7 @@ def from_json(b):
     def st(s):
         t = s[0]
         if t == 'func': return ('func', s[1], list(s[2]), blk(s[3]))
+        if t == 'funcassign': return ('funcassign', s[1], blk(s[2]))
         if t in ('do', 'while', 'repeat', 'for', 'defer'): return (t, blk(s[1]))
         if t == 'if': return ('if', blk(s[1]), blk(s[2]))
         if t == 'switch': return ('switch', [blk(x) for x in s[1]], bool(s[2]), blk(s[3])) + ((list(s[4]),) if len(s) > 4 else ())
@@ -406,6 +409,7 @@ def remap_types(b, usable):
         t = s[0]
         if t == 'conv': out.append(('conv', usable[s[1]], s[2]) + tuple(s[3:]))
         elif t == 'func': out.append(('func', s[1], s[2], remap_types(s[3], usable)))
+        elif t == 'funcassign': out.append(('funcassign', s[1], remap_types(s[2], usable)))
         elif t in ('do', 'while', 'repeat', 'for', 'defer'): out.append((t, remap_types(s[1], usable)))
         elif t == 'if': out.append(('if', remap_types(s[1], usable), remap_types(s[2], usable)))
         elif t == 'switch': out.append(('switch', [remap_types(x, usable) for x in s[1]], s[2], remap_types(s[3], usable)) + tuple(s[4:]))
